@@ -755,6 +755,14 @@ struct Runner {
         freezeCurrent(std::move(h));
     }
     void doAssign(const sim::Op &op) {
+        if ((op.a & 48) == 48) { // self-assignment must change nothing
+            G &alias = *g;
+            *g = alias;
+            res.probes.inc("self_assignment");
+            ++faultsFired;
+            res.faults.inc("snapshot_assign");
+            return;
+        }
         std::unique_ptr<G> h(new G(modn(op.b, nmax + 1)));
         Model hm; hm.directed = directed; hm.n = (unsigned)h->getSize();
         junkHistory(*h, hm, (uint64_t)op.x * 2654435761ULL + 17, 1 + (int)modn(op.a, 12), nmax);
